@@ -298,7 +298,7 @@ def jobs(tier):
             for nbs in (None, 1, 3):
                 for kind in ("complex", "positive", "mixed"):
                     k += 1
-                    if tier == "quick" and (k % 3) and not (kind == "complex" and nbs is None):
+                    if tier == "quick" and (k % 3) and not (kind == "complex" and (nbs is None or (N + bs) % 2 == 0)):
                         continue
                     if kind == "mixed" and (N + bs) % 2:
                         continue
